@@ -69,7 +69,7 @@ int run_c06(verif::Args const& args, verif::Report& rep)
     rep.assume("same number of track slots in reference and variant (part of the statement)");
     rep.assume("layout order init_charge is only compared against itself");
 
-    std::uint64_t ncases = args.budget(60, 4000);
+    std::uint64_t ncases = args.budget(60, 1500);
     int variants_per_case = args.thorough() ? 8 : 5;
     for (std::uint64_t c = 0; c < ncases; ++c)
     {
